@@ -110,6 +110,14 @@ func Load(cfg LoadConfig, overlay map[string][]byte) (*Loaded, error) {
 		SolverKind:     SolverZ3New,
 		TimeoutMs:      10000,
 	}
+	// Library packages interpreted from their own SSA are built NOW, before any worker runs: a
+	// lazy Build() from one worker publishes half-built function bodies (Blocks set, lifting not
+	// done) to the others.
+	for path := range e.WhitelistPkgs {
+		if p := m[path]; p != nil {
+			p.Build()
+		}
+	}
 	Sigma()
 	e.Prelude = C19Prelude()
 	EnvStubs(e.Stubs)
